@@ -25,7 +25,7 @@ RULE = ("JSON-like values, depth <= 5: containers of length 0,1,2,3,5,12,30,45,7
 ASSUMPTIONS = ["no NaN / infinities, no str keys equal up to type with int keys",
                "where lines break is not asserted (the property does not say), only that nothing is lost"]
 TIERS = {
-    "quick": {"shards": 4, "cases": 1500, "timeout": 300},
+    "quick": {"shards": 8, "cases": 750, "timeout": 300},
     "thorough": {"shards": 16, "cases": 15000, "timeout": 3000},
 }
 FLOORS = {"quick": {"distinct_nontrivial": 1500, "values_read_back": 10000, "multi_line_outputs": 3000,
@@ -266,6 +266,39 @@ def judge(ctx, obj, jm, case):
         ctx.count("results_used_as_text_after_partial_iteration")
         if whole != txt:
             ctx.violation("text-after-partial-iteration-differs", {"got": whole[:150], "expected": txt[:150]}, case)
+    if len(lines) > 1 and len(txt) % 3 == 1:
+        # the line iteration of a no-colour result is suspended, the same printer renders the value in colours,
+        # then the iteration goes on
+        try:
+            it = iter(pp(obj, no_color=True))
+            got_lines = [str(next(it))]
+            str(pp(obj))
+            got_lines += [str(l) for l in it]
+        except Exception as err:
+            ctx.violation("printing-raises", {"type": type(err).__name__, "msg": str(err)[:150]}, case)
+            return
+        ctx.count("iterations_resumed_after_a_coloured_rendering")
+        if "\n".join(got_lines) != txt:
+            ctx.violation("interleaved-rendering-changes-the-text", {"got": "\n".join(got_lines)[:150]}, case)
+    if isinstance(obj, (list, dict)) and len(txt) % 3 == 0:
+        # the caller prints a container, changes it in place and prints it again
+        import copy
+        mut = copy.deepcopy(obj)
+        try:
+            str(pp(mut, no_color=True))
+            if isinstance(mut, list):
+                mut.append("added later")
+            else:
+                mut["zzz added later"] = [1]
+            txt2 = str(pp(mut, no_color=True))
+            back2 = json.loads(txt2) if jm else ast.literal_eval(txt2)
+        except Exception as err:
+            ctx.violation("output-does-not-parse", {"type": type(err).__name__, "msg": str(err)[:120],
+                                                    "after": "the value was changed in place"}, case)
+            return
+        ctx.count("containers_printed_again_after_a_change_in_place")
+        if back2 != mut:
+            ctx.violation("read-back-value-differs", {"text": txt2[:300], "after": "the value was changed in place"}, case)
     try:
         # the line objects are kept first and rendered afterwards
         kept = list(pp(obj, no_color=True))
